@@ -399,6 +399,7 @@ func edfCorpus() map[string]any {
 		"anys":     []any{int64(1), "two", []byte{3}, gen.Atom("four"), nil, true},
 		"struct":   hostStruct{A: 5, B: "bee", C: []uint16{1, 2}, D: map[string]float64{"pi": 3.14}, E: gen.PID{Node: "n@h", ID: 5}, F: []any{"x", int8(3)}},
 		"named":    hostNamed{"p", "q", "r"},
+		"zeroarr":  [2][0]uint16{},
 		"namedmap": hostNamedMap{"one": 1, "two": 2},
 		"namedarr": hostNamedArr{7, 8, 9},
 		"anynamed": []any{hostNamedMap{"k": 5}, hostNamed{"s"}, hostNamedArr{1, 2, 3}},
@@ -443,6 +444,10 @@ func (r *HostRunner) RunEdf(c *EdfCase) error {
 		}
 	case "set00":
 		m[at] = 0
+	case "ffapp":
+		// an inflated length field with something behind the value
+		m[at] = 0xff
+		m = append(m, byte(c.Arg2))
 	case "tag":
 		m[at] = tags[c.Arg2%len(tags)]
 	case "dup":
